@@ -115,6 +115,11 @@ impl<R: Read + Seek> ReadBox<&mut R> for MetaBox {
             // Get box header.
             let header = BoxHeader::read(reader)?;
             let BoxHeader { name, size: s } = header;
+            if s > size {
+                return Err(Error::InvalidData(
+                    "meta box contains a box with a larger size than it",
+                ));
+            }
 
             match name {
                 BoxType::HdlrBox => {
@@ -145,6 +150,11 @@ impl<R: Read + Seek> ReadBox<&mut R> for MetaBox {
                     // Get box header.
                     let header = BoxHeader::read(reader)?;
                     let BoxHeader { name, size: s } = header;
+                    if s > size {
+                        return Err(Error::InvalidData(
+                            "meta box contains a box with a larger size than it",
+                        ));
+                    }
 
                     match name {
                         BoxType::IlstBox => {
@@ -168,13 +178,21 @@ impl<R: Read + Seek> ReadBox<&mut R> for MetaBox {
                     // Get box header.
                     let header = BoxHeader::read(reader)?;
                     let BoxHeader { name, size: s } = header;
+                    if s > size {
+                        return Err(Error::InvalidData(
+                            "meta box contains a box with a larger size than it",
+                        ));
+                    }
 
                     match name {
                         BoxType::HdlrBox => {
                             skip_box(reader, s)?;
                         }
                         _ => {
-                            let mut box_data = vec![0; (s - HEADER_SIZE) as usize];
+                            let data_size = s
+                                .checked_sub(HEADER_SIZE)
+                                .ok_or(Error::InvalidData("meta child box is too small"))?;
+                            let mut box_data = vec![0; data_size as usize];
                             reader.read_exact(&mut box_data)?;
 
                             data.push((name, box_data));
